@@ -23,10 +23,11 @@ def VE(k): TRACE.append(k); return 'x%d\\ny' % k
 def VO(k): TRACE.append(k); return O(k)
 def VR(k): TRACE.append(k); return BadRepr()
 def PV(k): TRACE.append(k); print('p%d' % k); return k * 11
+def PX(k): TRACE.append(k); print('p%d' % k); raise ValueError('e%d' % k)
 '''
 
 # kind -> (source lines, stdout, repr of value or None, is expression statement, trace items)
-KINDS = ['P', 'A', 'V', 'PP', 'VS', 'VE', 'VO', 'VN', 'PV', 'N', 'VR', 'S']
+KINDS = ['P', 'A', 'V', 'PP', 'VS', 'VE', 'VO', 'VN', 'PV', 'N', 'VR', 'S', 'X']
 
 
 def kind_info(kd, k):
@@ -54,15 +55,18 @@ def kind_info(kd, k):
         return ['>>> VR(%d)' % k], '', None, True, [k]
     if kd == 'S':
         return ['>>> P(%d)  # xdoctest: +SKIP' % k], '', None, True, []
+    if kd == 'X':
+        # prints, then raises; always carries its (correct) traceback want: an expected exception
+        return ['>>> PX(%d)' % k], 'p%d\n' % k, None, True, [k]
     raise KeyError(kd)
 
 
-OUTLINES = {'P': 1, 'PP': 2, 'PV': 1}
+OUTLINES = {'P': 1, 'PP': 2, 'PV': 1, 'X': 1}
 HASVAL = {'V', 'VS', 'VE', 'VO', 'PV'}
 EXPRS = {'P', 'V', 'VS', 'VE', 'VO', 'VN', 'PV'}
 NOCODE = {'N', 'S'}
 GOOD = ['ALL', 'LAST', 'REPR']
-CORRUPT = ['c_repl', 'c_app', 'c_pre', 'c_drop', 'c_stale']
+CORRUPT = ['c_repl', 'c_app', 'c_pre', 'c_drop', 'c_stale', 'c_stalev', 'c_stalex']
 SEPS = ['none', 'blank']
 FLAGS = dict(ELLIPSIS=True, NORMALIZE_WHITESPACE=True, IGNORE_WHITESPACE=False, NORMALIZE_REPR=True,
              DONT_ACCEPT_BLANKLINE=False)
@@ -83,21 +87,23 @@ class WantSpec(Spec):
         self.max_len = max_len
         self.max_cost = max_cost
         self.min_len = min_len
-        self.rule = ('history = <=%d events (12 statement kinds x {no want, ALL, LAST, REPR, 5 corruptions} x '
+        self.rule = ('history = <=%d events (13 statement kinds (incl. print-then-raise with its traceback want) x {no want, ALL, LAST, REPR, 7 corruptions} x '
                      '{no separator, blank line}), at most one corrupted want per doctest, cost <= %d; '
                      'non-trivial = doctest with at least one want' % (max_len, max_cost))
 
     # state: (pending lines, previous want consumed non-empty output, corrupted already, n)
     def init(self):
-        return (0, False, False, 0)
+        return (0, False, False, 0, False, False)
 
     def enabled(self, S, hist):
-        pend, prev, corrupted, n = S
+        pend, prev, corrupted, n, hadval, prevx = S
         evs = []
         for kd in KINDS:
             lines = pend + OUTLINES.get(kd, 0)
             wants = [None]
-            if kd not in ('VR', 'S'):
+            if kd == 'X':
+                wants = ['TB']
+            elif kd not in ('VR', 'S'):
                 if lines or kd in HASVAL:
                     wants.append('ALL')
                     if not corrupted:
@@ -106,6 +112,12 @@ class WantSpec(Spec):
                             wants.append('c_drop')
                         if prev:
                             wants.append('c_stale')
+                        if prevx:
+                            wants.append('c_stalex')
+                elif not corrupted and kd != 'N':
+                    wants.append('c_repl')      # a want under a statement that produced nothing
+                if hadval and not corrupted:
+                    wants.append('c_stalev')
                 if kd in EXPRS and OUTLINES.get(kd, 0):
                     wants.append('LAST')
                 if kd in HASVAL:
@@ -119,12 +131,15 @@ class WantSpec(Spec):
         return ev_cost(ev)
 
     def step(self, S, ev):
-        pend, prev, corrupted, n = S
+        pend, prev, corrupted, n, hadval, prevx = S
         kd, w, sep = ev
         lines = pend + OUTLINES.get(kd, 0)
+        hadval = hadval or kd in HASVAL
         if w is not None:
-            return (0, lines > 0, corrupted or w in CORRUPT, n + 1)
-        return (min(lines, 3), prev, corrupted, n + 1)
+            # prevx: the previous want was the traceback want of a raising statement and it also consumed
+            # output written by earlier want-less statements
+            return (0, lines > 0, corrupted or w in CORRUPT, n + 1, hadval, w == 'TB' and pend > 0)
+        return (min(lines, 3), prev, corrupted, n + 1, hadval, prevx)
 
     def final(self, S, hist):
         return len(hist) >= self.min_len and hist[-1][2] == 'none'
@@ -139,6 +154,8 @@ class WantSpec(Spec):
         unspec = None
         prev_consumed = ''
         fail_kind = None
+        lastval = None
+        prev_before_x = ''
         for k, (kd, w, sp) in enumerate(hist, 1):
             src, out, val, is_expr, tr = kind_info(kd, k)
             lines += src
@@ -149,14 +166,20 @@ class WantSpec(Spec):
             pend.append(out)
             if w:
                 allout = ''.join(pend)
-                if w == 'ALL' or w.startswith('c_'):
-                    base = allout if allout else (val + '\n' if val else None)
+                if w == 'TB':
+                    base = 'Traceback (most recent call last):\nValueError: e%d\n' % k
+                elif w == 'ALL' or w.startswith('c_'):
+                    base = allout if allout else (val + '\n' if val else '')
                 elif w == 'LAST':
                     base = out
                 elif w == 'REPR':
                     base = val + '\n'
-                assert base, (hist, k)
-                if w == 'c_repl':
+                assert base or w in ('c_repl', 'c_stalev'), (hist, k)
+                if w == 'c_stalev':
+                    wt = lastval + '\n'
+                elif w == 'c_stalex':
+                    wt = prev_before_x + base
+                elif w == 'c_repl':
                     wt = 'ZZZ\n'
                 elif w == 'c_app':
                     wt = base + 'ZZZ\n'
@@ -182,7 +205,10 @@ class WantSpec(Spec):
                     fail_kind = kd
                     stop = True
                 prev_consumed = allout
+                prev_before_x = ''.join(pend[:-1])
                 pend = []
+            if val is not None:
+                lastval = val
             if sp == 'blank':
                 lines.append('')
         if exp == 'passed' and not anycode:
